@@ -210,6 +210,8 @@ def make_table_harness(polar: bool, max_sweeps: int, max_len: int):
                 pp = (p * symnp.pi_val() / 180) if (degrees and eng.symbolic) else p
                 if eng.implied(same(mag, m), light=False) and eng.implied(same(phi, pp), light=False):
                     return z
+            # the code converts (modulus, phase) pairs other than the ones written: a sign, unit or column mix-up
+            eng.fail("table:the modulus and phase written reach the polar-to-cartesian conversion unchanged", "rect(%r, %r)" % (mag, phi))
             raise PathAbort("rect() on values the writer did not produce")
 
         class CM:
@@ -296,5 +298,15 @@ def replay(obligation: str, witness):
         for ob in obligations(tier):
             if ob.name == obligation:
                 reproduced, msg, _ = run_concrete(ob.harness, witness)
+                if not reproduced and obligation.startswith("table.polar"):
+                    # under the engine modulus and phase are variables of their own; the replay derives them from Z, and a model with
+                    # Z = 0 or Im Z = 0 hides a sign or column mix-up: retry with generic impedances on the same path
+                    w2 = dict(witness)
+                    for k, v in witness.items():
+                        if k.endswith(".re") or k.endswith(".im"):
+                            w2[k] = (3 + len(k) % 5) * (-1 if k.endswith(".im") else 1) / 2
+                    reproduced, msg, _ = run_concrete(ob.harness, w2)
+                    if reproduced:
+                        msg += " (witness with generic impedances)"
                 return reproduced, msg
     raise KeyError(obligation)
